@@ -383,7 +383,7 @@ def canon_inverse_call(call):
     return [name, out]
 
 
-def run_block(st, name, args, kwargs, edits, limit=5.0, recorder=None):
+def run_block(st, name, args, kwargs, edits, limit=30.0, recorder=None):
     """returns (answer, td_after, yielded_meta, before_clone, y_modified_clone_or_None)"""
     td = build(st)
     before = td.clone()
@@ -453,7 +453,7 @@ def apply_spelled(td, name, args, kwargs):
     return getattr(td, name)(*args, **kwargs)
 
 
-def run_nested(st, kind, op1, sp1, op2, sp2, edits2, edits1, limit=5.0):
+def run_nested(st, kind, op1, sp1, op2, sp2, edits2, edits1, limit=30.0):
     """`with td.<op1> as y: (with (y|td).<op2> as z: edits2); edits1` on the implementation, and the same program
     executed by hand with explicit canonical inverses (no context manager): returns (answer, td, expected_td)"""
     td = build(st)
